@@ -602,16 +602,19 @@ def nRoot2 : MtState (MtState MemState) := (none, [(kweb, (none, [(kxyz, nLeaf)]
 example : oldNestedIsDir memOps T nRoot2 (kweb ++ [['x']]) = .ok false ∧
     (nestedOps memOps T).isDir nRoot2 (kweb ++ [['x']]) = .ok true := by decide
 
-/-! #### what the real `is_supported` does NOT give: exclusivity below a mount point that holds a composite
+/-! #### why a missing route must not be answered with `False`
 
-A mounted mount-point store WITHOUT a default store does not support a key it has no route for, so the outer `route_to`
-walks on — to a shallower mount or to the OUTER default store.  A key below the mount prefix is then served by the outer
-default store (reads and writes), while `keys()` and `listdir` of the outer composite — which hide the default store's
-entries below a mount prefix — do not show it.  (Before a6dff51 the escaping `KeyRouteNotFound` made such reads and
-writes raise; `/repo` now behaves as this model does.)  The `T`-based `mount_union_part` and `mount_keys_complete` have
-no nested analogue; `nested_exclusive_partial` is what holds. -/
+If a mounted mount-point store WITHOUT a default store answered `is_supported = False` for a key it has no route for, the outer
+`route_to` would walk on — to a shallower mount or to the OUTER default store: a key below the mount prefix would be served by the
+outer default store (reads and writes), while `keys()` and `listdir` of the outer composite — which hide the default store's entries
+below a mount prefix — would not show it.  The first version of the repair (`a6dff51`) did exactly that; the model (`Mt.supports`
+answers `false` there) refutes exclusivity and completeness for it below (`nested_exclusive_false_if_unsupported`,
+`nested_keys_incomplete_if_unsupported`), the behaviour was reproduced on the code, and the repair was corrected (`2edf0fa`): the
+code raises `KeyRouteNotFound` for such keys, as it always did.  For the code as it is, `nested_exclusive_partial` is the statement:
+exclusive wherever the mounted composite supports the key; elsewhere the operation raises (outside this Boolean model). -/
 
-/-- the full nested statement: a key whose innermost outer mount is entry `i` is read from the composite mounted there -/
+/-- exclusivity for the MODEL's support function (missing route = `false`): a key whose innermost outer mount is entry `i` is read
+from the composite mounted there.  False — see above; not a statement about the code, which raises instead. -/
 def nested_exclusive_statement : Prop :=
   ∀ (o : MtState (MtState MemState)) (i : Nat) (p : Key) (m : MtState MemState) (q : Key),
     tableWF (o.2.map (·.1)) = true → o.2[i]? = some (p, m) → Owns o.2 i (p ++ q) →
@@ -642,14 +645,14 @@ example : (nestedOps memOps T).contains fRoot (kweb ++ [['f', 'o', 'o']]) = .ok 
 example : (nestedOps memOps T).keys fRoot = .ok [kweb, kweb ++ [['x']], kweb ++ [['x'], ['f']]] := by decide
 example : (nestedOps memOps T).listdir fRoot kweb = .ok (some [['x']]) := by decide
 
-example : ¬ nested_exclusive_statement := by
+theorem nested_exclusive_false_if_unsupported : ¬ nested_exclusive_statement := by
   intro h
   have := h fRoot 0 kweb fIn [['f', 'o', 'o']] (by decide) rfl
     ((route_innermost fRoot.2 (by decide) _ 0).mp (by decide))
   revert this
   decide
 
-example : ¬ nested_keys_complete_statement := by
+theorem nested_keys_incomplete_if_unsupported : ¬ nested_keys_complete_statement := by
   intro h
   have := h fRoot (kweb ++ [['f', 'o', 'o']]) [kweb, kweb ++ [['x']], kweb ++ [['x'], ['f']]]
     (by decide) (by decide) (by decide) (by decide) (by decide)
@@ -678,4 +681,4 @@ end Liquer.C14
 -- OBLIGATIONS: Liquer.C14.route_exclusive Liquer.C14.route_exclusive_default Liquer.C14.hit_iff_prefix Liquer.C14.route_innermost Liquer.C14.prefix_strips Liquer.C14.prefix_strips_reads Liquer.C14.mount_union_above Liquer.C14.mount_union_part Liquer.C14.mount_union_default Liquer.C14.mount_union_meta_key Liquer.C14.mount_union_listdir_part Liquer.C14.mount_union_listdir_default Liquer.C14.mount_union_listdir_noroute Liquer.C14.mount_union_keys Liquer.C14.mount_write_exclusive Liquer.C14.mount_write_frame Liquer.C14.mount_write_default_only Liquer.C14.mount_removedir_refuses Liquer.C14.to_root_key_reaches_partial Liquer.C14.to_root_key_default Liquer.C14.mount_keys_complete_partial Liquer.C14.mount_keys_complete_gen Liquer.C14.mount_keys_complete Liquer.C14.mount_keys_exact Liquer.C14.mount_keys_once Liquer.C14.to_root_key_chain Liquer.C14.to_root_key_nested_reaches
 -- OBLIGATIONS: Liquer.C14.supports_dirs Liquer.C14.supports_isDir Liquer.C14.nested_dir_lifts Liquer.C14.nested_at_mount_point Liquer.C14.nested_depth3 Liquer.C14.nested_old_loses_mount_point Liquer.C14.nested_exclusive_partial
 -- STATEMENT-ONLY: Liquer.C14.to_root_key_reaches_statement
--- STATEMENT-ONLY: Liquer.C14.nested_exclusive_statement Liquer.C14.nested_keys_complete_statement
+-- OBLIGATIONS: Liquer.C14.nested_exclusive_false_if_unsupported Liquer.C14.nested_keys_incomplete_if_unsupported
